@@ -35,6 +35,12 @@ SUB = {
 }
 
 
+def words_bound(words, quick, base=3):
+    """exhaustive bound in words for an alphabet: the quick bound, one more in the thorough tier where the alphabet is small enough
+    for the extra level to stay in the millions of states (|alphabet| ^ bound sources, each parsed up to three times by the machine)"""
+    return base if quick or len(words) > 16 else base + 1
+
+
 def mc_strings(d, name, scopes, userskip=(), invariants=ALL_INV, dump=True, sources=(), runs='BC'):
     """scopes: list of (words, maxwords)"""
     sc = ', '.join('[w |-> {%s}, n |-> %d, m |-> %d]' % (', '.join(tlc.tla_seq(w) for w in s[0]), s[1], s[2] if len(s) > 2 else 0) for s in scopes)
